@@ -1,6 +1,6 @@
 #!/bin/bash
 # run_all.sh [tier]: every check on /repo itself, one after the other; summary lines in build/run_all.log
-cd /verif; T=${1:-quick}; L=build/run_all.log; : > $L
+cd "$(dirname "$0")/.."; T=${1:-quick}; L=build/run_all.log; : > $L
 for c in C01 C02 C03 C04 C05 C06 C07 C08 C09 C10 C11 C12 C13 C14 C15 C16 C17 C18 C19 C20; do
   ./check $c --tier $T > build/run_all.$c.out 2>&1; rc=$?
   echo "$c rc=$rc $(grep -c '^VIOLATION' build/run_all.$c.out) violations | $(tail -1 build/run_all.$c.out)" >> $L
